@@ -232,7 +232,8 @@ class CFGrid(Generic[Topology], DimensionConvention[CFGridKind, CFGridIndex]):
             Optional, allows you to override the default topology helper.
         """
         super().__init__(dataset)
-        if latitude is not None and longitude is not None:
+        # Either name can be given on its own, the other one is then detected
+        if latitude is not None or longitude is not None:
             if topology is not None:
                 raise TypeError(
                     "Can not pass both latitude and longitude arguments, "
